@@ -1,8 +1,7 @@
 // Appended to crates/grafeo-core/src/index/adjacency.rs in the scratch copy (cfg(kani) only).
-// BOUNDED stand-ins (C14: "the neighbour lists and degrees of every node match the set of live edges"), on the REAL private
-// AdjacencyChunk / CompressedAdjacencyChunk / AdjacencyList:
-//   - hot -> cold compression (sort + DeltaBitPacked + BitPackedInts, the C15 codecs) and decompression return the same multiset;
-//   - add_edge / compact / mark_deleted in any interleaving: iter() enumerates exactly the live entries, once each, and degree() counts them.
+// BOUNDED stand-in (C15: "compressed adjacency chunks ... decoding what was encoded returns the original"), on the REAL private
+// AdjacencyChunk / CompressedAdjacencyChunk:
+//   - hot -> cold compression (sort + DeltaBitPacked + BitPackedInts, the C15 codecs) and decompression return the same multiset.
 #[cfg(kani)]
 mod verif_adjacency {
     use super::*;
@@ -41,39 +40,5 @@ mod verif_adjacency {
     #[kani::proof] #[kani::unwind(6)] fn chunk_compress_roundtrip_len1() { chunk_roundtrip(1); }
     #[kani::proof] #[kani::unwind(6)] fn chunk_compress_roundtrip_len2() { chunk_roundtrip(2); }
     #[kani::proof] #[kani::unwind(6)] fn chunk_compress_roundtrip_len3() { chunk_roundtrip(3); }
-
-    const E: usize = 4;     // edges added
-    fn list_ops(n: usize, cap: usize) {
-        let ds: [u64; E] = kani::any();
-        let mut list = AdjacencyList::new();
-        let mut i = 0;
-        while i < n {
-            list.add_edge(NodeId::new(ds[i]), EdgeId::new(i as u64));
-            if kani::any() { list.compact(cap); }
-            i += 1;
-        }
-        let del: usize = kani::any();
-        kani::assume(del <= E);                     // del >= n: delete nothing
-        if del < n { list.mark_deleted(EdgeId::new(del as u64)); }
-        if kani::any() { list.compact(cap); }
-        let mut seen = [0usize; E];
-        let mut total = 0;
-        for (d, e) in list.iter() {
-            let id = e.as_u64() as usize;
-            assert!(id < n, "iter() yields an edge that was never added");
-            assert!(d.as_u64() == ds[id], "iter() pairs an edge with the wrong neighbour");
-            seen[id] += 1;
-            total += 1;
-        }
-        let mut k = 0;
-        while k < n {
-            assert!(seen[k] == if k == del { 0 } else { 1 }, "a live edge is missing / duplicated, or a deleted edge is still listed");
-            k += 1;
-        }
-        assert!(list.degree() == total, "degree() disagrees with the enumeration");
-        kani::cover!(true);
-        std::mem::forget(list);
-    }
-    #[kani::proof] #[kani::unwind(7)] fn list_ops_n2_cap1() { list_ops(2, 1); }
-    #[kani::proof] #[kani::unwind(7)] fn list_ops_n3_cap2() { list_ops(3, 2); }
+    // AdjacencyList::{add_edge, compact, mark_deleted, iter} over symbolic neighbours did not finish in CBMC (> 25 min at 2 edges): not covered
 }
